@@ -519,6 +519,52 @@ func modeTLSGate(args []string) {
 				}
 			}
 		}
+		// a client that keeps a TLS session cache: its second and third connections RESUME the session (no certificate is sent
+		// again); the gate applies to every connection, resumed or not
+		for _, cred := range []string{"wrongname", "intermediate-name", "foreignca", "valid"} {
+			var cert tls.Certificate
+			switch cred {
+			case "wrongname":
+				cert = p.wrongName.tlsCert()
+			case "intermediate-name":
+				cert = p.underInter.tlsCert(p.inter)
+			case "foreignca":
+				cert = p.foreign.tlsCert(p.foreignCA)
+			default:
+				cert = p.valid.tlsCert()
+			}
+			for _, maxVer := range []uint16{tls.VersionTLS12, tls.VersionTLS13} {
+				cc := p.clientConfig(&cert)
+				cc.ClientSessionCache = tls.NewLRUClientSessionCache(8)
+				cc.MaxVersion = maxVer
+				for i := 1; i <= 3; i++ {
+					r := gateResult{Config: cfgName, Cred: cred, Fault: "complete", Order: fmt.Sprintf("session-cache-tls1.%d-connection-%d", maxVer-tls.VersionTLS10, i), GoodTLS: true, GoodPlain: true}
+					before := atomic.LoadInt64(&s.executed)
+					raw, err := net.DialTimeout("tcp", addr(s.secure), ioTimeout)
+					if err != nil {
+						r.Note = "dial: " + err.Error()
+					} else {
+						c := tls.Client(raw, cc)
+						c.SetDeadline(time.Now().Add(ioTimeout))
+						if err := c.Handshake(); err == nil {
+							r.Handshake = true
+							if c.ConnectionState().DidResume {
+								r.Note = "resumed"
+							}
+							if pw != "" {
+								exchange(c, resp("AUTH", pw))
+							}
+							rep, err := exchange(c, resp("WHOAMI"))
+							r.Served = err == nil && strings.HasPrefix(rep, "$")
+						}
+						raw.Close()
+					}
+					time.Sleep(2 * time.Millisecond)
+					r.Executed = atomic.LoadInt64(&s.executed) - before
+					emit(r)
+				}
+			}
+		}
 		// many failed handshakes in a row (port probes, health checks that connect and hang up): whatever the server keeps per
 		// handshake must not add up - afterwards a well-behaved client is still served
 		floodN := 300
@@ -1261,6 +1307,122 @@ func modeStopRace(args []string) {
 		emit(res)
 		go s.srv.Stop()
 	}
+}
+
+// ---------------------------------------------------------------- C13 / C15: many clients at the same moment
+// burst <rounds> <clients>: per round, <clients> plain and <clients> TLS clients connect at the SAME moment; each selects its own
+// database, then asks three times what the handler sees for its connection (database, UUID): its own database each time, one
+// UUID throughout, every request answered; all stay connected (idle) until the round ends, so the N-th concurrent client is
+// served like the first.  Then Restart, and once more.  (C13: state per connection; C15: serves every client until Stop.)
+func modeBurst(args []string) {
+	rounds, clients := 10, 8
+	if len(args) > 0 {
+		rounds, _ = strconv.Atoi(args[0])
+	}
+	if len(args) > 1 {
+		clients, _ = strconv.Atoi(args[1])
+	}
+	warmUp()
+	p := newPKI()
+	defer p.cleanup()
+	s, err := startSUT(p, "both", false, "")
+	if err != nil {
+		emit(map[string]any{"error": "start: " + err.Error()})
+		return
+	}
+	s.srv.RegisterExexutor("CONNSTATE", func(conn *redis.Conn, cmd string, args redis.Arguments) (*redis.Message, error) {
+		return redis.NewBulkMessage(fmt.Sprintf("%d:%s", conn.Database(), conn.UUID())), nil
+	})
+	vc := p.valid.tlsCert()
+	for round := 0; round < rounds; round++ {
+		res := map[string]any{"round": round, "clients": 2 * clients, "problems": []string{}}
+		var mu sync.Mutex
+		add := func(msg string) {
+			mu.Lock()
+			if l := res["problems"].([]string); len(l) < 6 {
+				res["problems"] = append(l, msg)
+			}
+			mu.Unlock()
+		}
+		start := make(chan struct{})
+		hold := make(chan struct{})
+		var wg, ready sync.WaitGroup
+		for i := 0; i < 2*clients; i++ {
+			wg.Add(1)
+			ready.Add(1)
+			go func(i int) {
+				defer wg.Done()
+				useTLS := i%2 == 1
+				<-start
+				var c net.Conn
+				var err error
+				if useTLS {
+					var raw net.Conn
+					raw, err = net.DialTimeout("tcp", addr(s.secure), ioTimeout)
+					if err == nil {
+						tc := tls.Client(raw, p.clientConfig(&vc))
+						tc.SetDeadline(time.Now().Add(ioTimeout))
+						err = tc.Handshake()
+						c = tc
+						defer raw.Close()
+					}
+				} else {
+					c, err = net.DialTimeout("tcp", addr(s.plain), ioTimeout)
+					if err == nil {
+						defer c.Close()
+					}
+				}
+				if err != nil {
+					add(fmt.Sprintf("client %d (%s) of %d simultaneous clients was not served: %v", i, map[bool]string{true: "TLS", false: "plain"}[useTLS], 2*clients, err))
+					ready.Done()
+					return
+				}
+				db := 1 + i%15
+				c.SetDeadline(time.Now().Add(ioTimeout))
+				if rep, err := exchange(c, resp("SELECT", strconv.Itoa(db))); err != nil || !strings.HasPrefix(rep, "+OK") {
+					add(fmt.Sprintf("client %d: SELECT %d was answered %q %v", i, db, rep, err))
+				}
+				uuid := ""
+				for k := 0; k < 3; k++ {
+					rep, err := exchange(c, resp("CONNSTATE"))
+					if err != nil {
+						add(fmt.Sprintf("client %d: request %d after its own SELECT %d was not answered: %v", i, k, db, err))
+						break
+					}
+					f := strings.SplitN(strings.TrimSpace(rep[strings.Index(rep, "\n")+1:]), ":", 2)
+					if len(f) != 2 || f[0] != strconv.Itoa(db) {
+						add(fmt.Sprintf("client %d: after its own SELECT %d the handler saw database %s (request %d)", i, db, f[0], k))
+						break
+					}
+					if uuid != "" && uuid != f[1] {
+						add(fmt.Sprintf("client %d: its requests were served as two different connections (%s, %s)", i, uuid, f[1]))
+						break
+					}
+					uuid = f[1]
+				}
+				ready.Done()
+				<-hold // stay connected: the others must be served while this one idles
+			}(i)
+		}
+		close(start)
+		ready.Wait()
+		if n := len(s.srv.Conns()); n != 2*clients && len(res["problems"].([]string)) == 0 {
+			add(fmt.Sprintf("%d clients are connected and were answered, the registry holds %d connections", 2*clients, n))
+		}
+		close(hold)
+		wg.Wait()
+		settle(func() bool { return len(s.srv.Conns()) == 0 }, 3*time.Second)
+		if n := len(s.srv.Conns()); n != 0 {
+			add(fmt.Sprintf("the registry holds %d connections after every client has disconnected", n))
+		}
+		if round%3 == 2 {
+			if err := s.srv.Restart(); err != nil {
+				add("Restart: " + err.Error())
+			}
+		}
+		emit(res)
+	}
+	s.srv.Stop()
 }
 
 // failCloseConn closes the socket and reports an error, as tls.Conn.Close does when the peer is gone
